@@ -62,6 +62,8 @@ pub struct NodeCfg {
     pub assembler_update_interval_ms: u64,
     pub store_config: Option<StoreConfig>,
     pub start_chain: bool,
+    /// `SyncConfig::assume_valid_targets` (scripts are skipped until the last one is reached)
+    pub assume_valid_targets: Option<Vec<ckb_types::H256>>,
 }
 
 impl Default for NodeCfg {
@@ -73,6 +75,7 @@ impl Default for NodeCfg {
             assembler_update_interval_ms: 0,
             store_config: None,
             start_chain: true,
+            assume_valid_targets: None,
         }
     }
 }
@@ -170,6 +173,12 @@ impl Node {
         } else if let DbKind::Path { freezer: true, .. } = &cfg.db {
             builder = builder.store_config(StoreConfig {
                 freezer_enable: true,
+                ..Default::default()
+            });
+        }
+        if let Some(t) = &cfg.assume_valid_targets {
+            builder = builder.sync_config(ckb_app_config::SyncConfig {
+                assume_valid_targets: Some(t.clone()),
                 ..Default::default()
             });
         }
